@@ -29,7 +29,7 @@ BASE_THEOREMS = ["crc16_valid_single_bit_detected", "crc8_valid_single_bit_detec
 # property -> theorems of coq/codec/Props_codec.v claimed for it (grows as proofs land)
 THEOREMS = {
     "C01": ["C01_encoder_file_lossless", "ex_encoder_file", "C01_encoder_frame_lossless", "C01_encoder_stream_lossless", "C01_encoder_never_fails", "ex_encoder_roundtrip", "ex_block_ok", "C01_every_block_has_an_admissible_frame", "C03_complete_stream", "C01_decoders_agree", "C03_decoder_follows_format", "C17_parse_inverts_write", "ex_frame_roundtrip"],
-    "C02": ["C02_encoder_frame_valid", "C01_encoder_frame_lossless", "C02_reference_decoder_accepts", "C17_parse_inverts_write", "crc16_append", "crc8_append"],
+    "C02": ["C02_encoder_file_valid", "ex_encoder_file_valid", "C02_encoder_frame_valid", "C01_encoder_frame_lossless", "C02_reference_decoder_accepts", "C17_parse_inverts_write", "crc16_append", "crc8_append"],
     "C03": ["C03_decoder_follows_format", "C03_complete_stream", "C17_parse_inverts_write", "ex_frame_spec"],
     "C04": ["C04_frame_total", "C04_stream_total", "C04_frame_progress", "C04_decoded_frame_size", "C16_no_fabricated_frame"],
     "C05": BASE_THEOREMS + ["C05_flipped_frame_rejected", "C05_truncated_frame_is_error", "C05_reject_block_size_code_0", "C05_reject_rate_code_15", "C05_reject_reserved_subframe_type", "C05_reject_coding_method", "C05_reject_negative_shift", "crc16_single_bit", "crc16_append", "crc8_append"],
@@ -44,6 +44,7 @@ WRITERS = os.path.join(VERIF, "coq", "writers")
 READERS = os.path.join(VERIF, "coq", "readers")
 E2E = os.path.join(VERIF, "coq", "e2e")
 E2E_THEOREMS = ["C01_written_bytes_are_read", "C01_written_channels_are_read", "C01_byte_writer_lossless", "C01_channel_writer_lossless", "C01_end_to_end_bytes", "C01_end_to_end_channels", "C01_written_samples_are_read", "C01_sample_writer_lossless", "C01_end_to_end_samples", "C01_end_to_end_encoder", "C01_end_to_end_sample_writer", "C01_written_metadata_is_read", "C01_end_to_end_nonvacuous"]
+E2E_THEOREMS_BY = {"C01": E2E_THEOREMS, "C02": ["C02_sample_writer_file_valid", "C01_end_to_end_samples", "C01_written_metadata_is_read"]}
 E2E_REQUIRES = ["FlacWriters.Meta", "FlacWriters.Params", "FlacWriters.Finalize", "FlacWriters.Writers", "FlacE2E.Bridge", "FlacE2E.E2E", "FlacE2E.Props_E2E"]
 
 
@@ -52,14 +53,14 @@ def proof_stage(chk, pid, theorems=None, requires=None):
     reqs = ["Coq.Lists.List", "Coq.NArith.NArith", "Coq.ZArith.ZArith", "FlacBase.Bits", "FlacBase.Crc", "FlacBase.Pins"] + CODEC_REQUIRES + (requires or [])
     gen = ["python3 %s/tools/gen_crc.py %s %s/GenCrc.v" % (VERIF, vlib.REPO, BASE),
            "python3 %s/tools/gen_stream.py %s %s/GenStream.v" % (VERIF, vlib.REPO, CODEC)]
-    if pid == "C01":
-        # C01 also claims the end-to-end composition (coq/e2e): writers' Encoder x codec's block encoder x codec's stream decoder
+    if pid in E2E_THEOREMS_BY:
+        # C01 (and C02 for file-level validity) also claim the end-to-end composition (coq/e2e): writers' Encoder x codec's block encoder x codec's stream decoder / validator
         gen.append("python3 %s/tools/gen_writers.py %s %s/GenWriters.v" % (VERIF, vlib.REPO, WRITERS))
         return vlib.proof_stage(
             chk, coq_dirs=[BASE, CODEC, WRITERS, READERS, E2E], build_dir=E2E,
             qflags="-Q ../base FlacBase -Q ../codec FlacCodec -Q ../writers FlacWriters -Q ../readers FlacReaders -Q . FlacE2E",
-            requires=reqs + E2E_REQUIRES, theorems=E2E_THEOREMS + thms,
-            obligation_files=[(BASE, ["Res.v", "Bits.v", "Crc.v", "Pins.v"]), (CODEC, coq_files()), (E2E, ["Bridge.v", "E2E.v", "Sample.v", "SampleE2E.v", "Success.v", "ChannelE2E.v", "ByteE2E.v", "ReadBridge.v", "ReadersE2E.v", "Props_E2E.v"])],
+            requires=reqs + E2E_REQUIRES, theorems=E2E_THEOREMS_BY[pid] + thms,
+            obligation_files=[(BASE, ["Res.v", "Bits.v", "Crc.v", "Pins.v"]), (CODEC, coq_files()), (E2E, ["Bridge.v", "E2E.v", "Sample.v", "SampleE2E.v", "Success.v", "ChannelE2E.v", "ByteE2E.v", "ByteSuccess.v", "ChannelSuccess.v", "ReadBridge.v", "ReadersE2E.v", "Props_E2E.v"])],
             gen_steps=gen)
     return vlib.proof_stage(
         chk, coq_dirs=[BASE, CODEC], build_dir=CODEC, qflags="-Q ../base FlacBase -Q . FlacCodec",
